@@ -1017,6 +1017,10 @@ class UrlDispatcher(AbstractRouter, Mapping[str, AbstractResource]):
             for candidate in resource_index.get(url_part, ()):
                 match_dict, allowed = await candidate.resolve(request)
                 if match_dict is not None:
+                    if allowed_methods and match_dict.http_exception is not None:
+                        # A sub-application answers with its own 404/405;
+                        # keep the methods of the resources tried before it.
+                        return self._merge_allowed(request, match_dict, allowed_methods)
                     return match_dict
                 else:
                     allowed_methods |= allowed
@@ -1028,6 +1032,23 @@ class UrlDispatcher(AbstractRouter, Mapping[str, AbstractResource]):
             return MatchInfoError(HTTPMethodNotAllowed(request.method, allowed_methods))
 
         return MatchInfoError(self.HTTP_NOT_FOUND)
+
+    @staticmethod
+    def _merge_allowed(
+        request: Request, match_info: UrlMappingMatchInfo, allowed_methods: set[str]
+    ) -> UrlMappingMatchInfo:
+        """Add already collected allowed methods to a sub-app's 404/405."""
+        exc = match_info.http_exception
+        if isinstance(exc, HTTPMethodNotAllowed):
+            allowed_methods = allowed_methods | exc.allowed_methods
+            if allowed_methods == exc.allowed_methods:
+                return match_info
+        elif not isinstance(exc, HTTPNotFound):
+            return match_info
+        merged = MatchInfoError(HTTPMethodNotAllowed(request.method, allowed_methods))
+        for app in reversed(match_info.apps):
+            merged.add_app(app)
+        return merged
 
     def __iter__(self) -> Iterator[str]:
         return iter(self._named_resources)
